@@ -61,6 +61,8 @@ def main():
             classes = sorted({l.split("class=")[1].split(" ")[0] for l in c.stdout.splitlines() if "class=" in l})
             status = {0: "MISSED", 1: "caught", 2: "harness_error"}.get(c.returncode, f"exit{c.returncode}")
             results[name] = {"property": pid, "status": status, "classes": classes[:6]}
+            if c.returncode not in (0, 1):
+                results[name]["detail"] = (c.stdout[-600:] + c.stderr[-600:])
             print(f"{name:60s} {status:8s} {classes[:4]}")
             for f in glob.glob(os.path.join(ROOT, "replays", f"{pid}-*.json")):
                 os.remove(f)
